@@ -7,8 +7,6 @@ import (
 	"maps"
 	"reflect"
 	"slices"
-
-	"gopkg.in/yaml.v3"
 )
 
 func popMapValue(m map[string]any, k string) (bool, any, map[string]any) {
@@ -361,18 +359,10 @@ func containsMap(v any, target map[string]any) bool {
 	return false
 }
 
+// deepClone returns a copy of v that shares no map or list with it. The copy is
+// structural: a round trip through YAML text is not the identity (it drops
+// leading line breaks of strings, reads a "<<" key as a merge key, turns 1.0
+// into 1 and fails on some strings).
 func deepClone(v any) (any, error) {
-	yml, err := yaml.Marshal(v)
-	if err != nil {
-		return nil, err
-	}
-
-	var ret any
-
-	err = yaml.Unmarshal(yml, &ret)
-	if err != nil {
-		return nil, err
-	}
-
-	return ret, nil
+	return cloneTree(v), nil
 }
